@@ -5,7 +5,7 @@
     harness fills by calling the REAL marshaler directly (Name on every value and on every
     handler's zero value, Marshal on every value sent, Unmarshal of every payload into every
     handler type of the scenario) — independently of the bus / processor run that is compared. *)
-From WM Require Import Base.Prelude Message.Model Handler.RouterHandle CQRS.Model.
+From WM Require Import Base.Prelude Message.Model Handler.RouterHandle CQRS.Model CQRS.Reg CQRS.Calls.
 
 Definition val := (N * N)%type.        (* Go type, canonical content *)
 Definition val_eqb (a b : val) : bool := N.eqb (fst a) (fst b) && N.eqb (snd a) (snd b).
@@ -159,3 +159,67 @@ Definition reg_mismatch (c : reg_case) : bool :=
                     else (None, register_handlers (t_name t) (t_zero t) (r_hs c)) in
   negb (option_eqb N.eqb dup (r_dup c) && list_eqb revent_eqb tr (r_tr c)).
 Definition reg_mismatches (cs : list reg_case) : list nat := positions (map reg_mismatch cs).
+
+(** ** registration scripts (round "proofs"): a sequence of AddHandlers / AddHandler /
+    AddHandlersToRouter / AddHandlersGroup calls on one processor and one Router *)
+Record regs_case := RegS {
+  g_tab : codec_tab;
+  g_evt : bool; g_depr : bool;
+  g_calls : list (rcall N);
+  g_obs : list (list gevent * rres);        (* observed callback / router calls and result per call *)
+  g_router : list rhandler;                 (* observed Router handlers in order of appearance *)
+  g_hids : list N                           (* observed processor.Handlers() *)
+}.
+Definition regs_mismatch (c : regs_case) : bool :=
+  let t := g_tab c in
+  let '(s, obs) := reg_run (t_name t) (t_zero t) (g_evt c) (g_depr c) rinit (g_calls c) in
+  negb (list_eqb obs_eqb obs (g_obs c) && list_eqb rh_eqb (r_router s) (g_router c)
+        && list_eqb N.eqb (map (fun x => rs_id x) (r_handlers s)) (g_hids c)).
+Definition regs_violates (c : regs_case) : bool :=
+  let t := g_tab c in
+  negb (reg_monitor (t_name t) (t_zero t) (g_evt c) (g_depr c) (g_calls c) (g_obs c) (g_router c) (g_hids c)).
+Definition regs_mismatches (cs : list regs_case) : list nat := positions (map regs_mismatch cs).
+Definition regs_violations (cs : list regs_case) : list nat := positions (map regs_violates cs).
+
+(** ** marshaler call discipline (round "proofs"): observed call sequences, aligned with [cases]
+    / [buscases]; None = the scenario used the bare marshaler *)
+Definition mevent_eqb (a b : mevent val) : bool :=
+  match a, b with
+  | MMarshal v1, MMarshal v2 | MName v1, MName v2 => val_eqb v1 v2
+  | MNameFrom, MNameFrom => true
+  | MUnmarshal t1 o1 f1 k1, MUnmarshal t2 o2 f2 k2 => N.eqb t1 t2 && N.eqb o1 o2 && Bool.eqb f1 f2 && Bool.eqb k1 k2
+  | MHandle h1 o1, MHandle h2 o2 => N.eqb h1 h2 && N.eqb o1 o2
+  | _, _ => false
+  end.
+Definition mc_mismatch (c : c15_case) (mt : option (list (mevent val))) : bool :=
+  match mt with
+  | None => false
+  | Some tr =>
+      let t := k_tab c in
+      negb (list_eqb mevent_eqb (proc_mcalls (t_name t) (t_dec t) (t_zero t) (k_cfg c) (k_msg c) (k_del c)) tr)
+  end.
+Definition mc_violates (c : c15_case) (mt : option (list (mevent val))) : bool :=
+  match mt with
+  | None => false
+  | Some tr =>
+      let t := k_tab c in
+      negb (mcalls_ok (name_from (k_msg c)) tr
+            && list_eqb N.eqb (mhandles tr) (map fst (calls (k_tr c))))
+  end.
+Fixpoint zip_with {A B} (f : A -> B -> bool) (a : list A) (b : list B) : list bool :=
+  match a, b with x :: a', y :: b' => f x y :: zip_with f a' b' | _, _ => [] end.
+Definition mc_mismatches cs mts : list nat := positions (zip_with mc_mismatch cs mts).
+Definition mc_violations cs mts : list nat := positions (zip_with mc_violates cs mts).
+
+Definition bmc_mismatch (c : bus_case) (mt : option (list (mevent val))) : bool :=
+  match mt with
+  | None => false
+  | Some tr => negb (list_eqb mevent_eqb (bus_mcalls (t_enc (b_tab c)) (b_val c)) tr)
+  end.
+Definition bmc_violates (c : bus_case) (mt : option (list (mevent val))) : bool :=
+  match mt with
+  | None => false
+  | Some tr => negb (bus_mcalls_ok (t_enc (b_tab c)) val_eqb (b_val c) tr)
+  end.
+Definition bmc_mismatches cs mts : list nat := positions (zip_with bmc_mismatch cs mts).
+Definition bmc_violations cs mts : list nat := positions (zip_with bmc_violates cs mts).
